@@ -39,7 +39,7 @@ impl U {
 }
 
 /// Hex-serialised byte string.
-#[derive(Clone, PartialEq, Eq, Hash, Default)]
+#[derive(Clone, PartialEq, Eq, Hash, Default, PartialOrd, Ord)]
 pub struct Hex(pub Vec<u8>);
 impl Debug for Hex {
     fn fmt(&self, f: &mut std::fmt::Formatter<'_>) -> std::fmt::Result {
